@@ -284,7 +284,13 @@ func TestC06(t *testing.T) {
 		}
 		n := rapid.IntRange(cfg.MinSteps, cfg.MaxSteps).Draw(rt, "steps")
 		for i := 0; i < n; i++ {
-			run(genNodeOp(rt, nm, cfg))
+			op := genNodeOp(rt, nm, cfg)
+			if op.Op == "mine" && rapid.Bool().Draw(rt, "ownaddress") {
+				// the node's own block under its own address, through the real packBlock (restart code may treat
+				// blocks it proposed itself differently)
+				op = hx.NOp{Op: "minereal", Label: op.Label}
+			}
+			run(op)
 		}
 		// now and then a block of several MiB (three bulky transfers): large blocks must be as atomic as small ones
 		if rapid.IntRange(0, 11).Draw(rt, "hugeblock") == 0 {
